@@ -414,7 +414,7 @@ def gen_mode_cut(cwd):
     split_def = retype(_extract_item(text, r"^pub struct Split\s*\{"))
     rg_def = retype(_extract_item(text, r"^\s*struct RowGroup<'a>\s*\{"))
     ms = re.search(r"^[ \t]*let target = target_split_bytes\(", text, re.M)
-    me = re.search(r"^[ \t]*splits\.sort_by\(", text, re.M)
+    me = re.search(r"^[ \t]*splits\.sort\w*\(", text, re.M)
     if not ms or not me or me.start() <= ms.start():
         raise Inconclusive("mode S:cut: cannot delimit the pass-2 block of enumerate_parquet "
                            "(`let target = target_split_bytes(` .. `splits.sort_by(`) in the real source")
